@@ -89,7 +89,10 @@ class VLoop(asyncio.AbstractEventLoop):
         return n
 
     def live_timers(self):
-        return [r for r in self.timers if not r['fired'] and not r['handle']._cancelled]
+        # a timer whose awaiting future is already done (asyncio.sleep of a task that was cancelled but has not been resumed yet:
+        # sleep() cancels the handle only in its `finally`) can fire, but the firing is a no-op (_set_result_unless_cancelled): it is
+        # not an outstanding completion any more -- the model drops the wait at the cancellation, too
+        return [r for r in self.timers if not r['fired'] and not r['handle']._cancelled and not _awaiter_done(r['handle'])]
 
     def fire_timer(self, rec):
         rec['fired'] = True
@@ -111,3 +114,8 @@ class running:
     def __exit__(self, *a):
         events._set_running_loop(None)
         return False
+
+
+def _awaiter_done(handle):
+    args = getattr(handle, '_args', None) or ()
+    return bool(args) and isinstance(args[0], futures.Future) and args[0].done()
